@@ -21,7 +21,8 @@ Inductive act :=
 | ASlot        (* selector.unregister(conn) / the worker returns to the pool (Pool.notify_done) *)
 | ASock        (* SocketConnection.close: shutdown + close of the server-side socket *)
 | ADropInst    (* SocketConnection.close: self.pyroInstances = {} *)
-| ACloseRes    (* SocketConnection.close: for rsc in self.tracked_resources: rsc.close() *)
+| ACloseRes    (* SocketConnection.close: for rsc in self.tracked_resources: rsc.close() -- every element, whether or not
+                  an individual close() raises: a raising close is that resource's one ResClose *)
 | AClearRes.   (* SocketConnection.close: self.tracked_resources.clear() *)
 
 (* classes of exceptions that can leave Daemon.handleRequest *)
